@@ -634,6 +634,11 @@ func (p *parser) parseFunctionParameters() []*ast.Identifier {
 }
 
 func (p *parser) parseCallExpression(function ast.Expression) ast.Expression {
+	if function == nil {
+		p.errors = append(p.errors, fmt.Sprintf("line %d: syntax error: nothing to call before (", p.curToken.LineNumber))
+		return nil
+	}
+
 	exp := &ast.CallExpression{
 		TokenAble: ast.TokenAble{Token: p.curToken},
 		Function:  function,
@@ -718,6 +723,11 @@ func (p *parser) parseArrayLiteral() ast.Expression {
 }
 
 func (p *parser) parseIndexExpression(left ast.Expression) ast.Expression {
+	if left == nil {
+		p.errors = append(p.errors, fmt.Sprintf("line %d: syntax error: nothing to index before [", p.curToken.LineNumber))
+		return nil
+	}
+
 	exp := &ast.IndexExpression{TokenAble: ast.TokenAble{Token: p.curToken}, Left: left}
 
 	p.nextToken()
